@@ -26,7 +26,7 @@ def shards(tier):
 
 
 def required_classes(tier):
-    return ["soak:distinct-secret-keys", "sign:custom-suite", "sktopk", "sign:basic", "sign:aug", "sign:pop", "popprove", "aggregate", "key:boundary", "key:bitlen", "key:random", "msg:empty", "msg:block-boundary", "msg:long"]
+    return ["msg:len-from-literal", "soak:distinct-secret-keys", "sign:custom-suite", "sktopk", "sign:basic", "sign:aug", "sign:pop", "popprove", "aggregate", "key:boundary", "key:bitlen", "key:random", "msg:empty", "msg:block-boundary", "msg:long"]
 
 
 def _printable_short(m):
@@ -128,6 +128,18 @@ def run(rec):
                           soak_size(["py_ecc.bls.ciphersuites", "py_ecc.bls.g2_primitives", "py_ecc.bls.point_compression"], cap=2500 if quick else 20000))
     else:
         rec.case("soak:distinct-secret-keys", None, nontrivial=False)
+    # message lengths built from integer literals of the hashing modules times the hash block size (streaming chunk sizes)
+    if rec.shard in (10, 11, 12):
+        from .common import harvest_int_literals
+        lits = [v for v in harvest_int_literals(["py_ecc.bls.hash", "py_ecc.bls.hash_to_curve", "py_ecc.bls.ciphersuites"], 100, 10 ** 6)][-4:]
+        suite_ = names[rec.shard % 3]
+        for v in lits:
+            for ml in (v * 64, v * 64 - 48, v):
+                if 0 < ml <= 4 * 10 ** 6:
+                    m_ = (rng.randbytes(4096) * (ml // 4096 + 1))[:ml]
+                    rec.case("msg:len-from-literal", ("signlit", suite_, ml), sample={"fn": "Sign", "suite": suite_, "msg_len": ml})
+                    call(suites[suite_].Sign, rng.randrange(1, R), m_)
+    rec.case("msg:len-from-literal", None, nontrivial=False)
     # long message once per run
     if rec.shard == 0:
         m = rng.randbytes(4096 if quick else 65536)
